@@ -336,6 +336,9 @@ def _expand_state_inner(task):
                     from .faults import judge_fault
                     T = make_fault_transition(w0, m0, o0, canon0, a, script, res, w1)
                     V = judge_fault(T, spec)
+                    if not V:
+                        from .faults import continuation_c17
+                        V = continuation_c17(T, w0, w1, m0)
                 else:
                     T = make_transition(w0, m0, o0, canon0, a, script, res, w1, prop=spec["prop"])
                     V = judge(T)
